@@ -78,11 +78,21 @@ def run_case(ds, kind, rnd, uniq, evs_spec, exhaustive, limits):
         evs_spec = contents_pool(rnd, scale)
     evl = [Event(timestamp=cz.dt(0) + s * MS, duration=ln * MS, data={"i": i}) for i, (s, ln) in enumerate(evs_spec)]
     if evl:
-        if rnd.random() < 0.5:
-            b.insert(evl)
+        moved = set()
+        if rnd.random() < 0.35:
+            # some events arrive at their final instants by REPLACEMENT: they are first inserted somewhere else on the time
+            # axis (before or after their neighbours) and then rewritten by id, so the bucket's history is not insertion-ordered
+            moved = set(rnd.sample(range(len(evl)), rnd.randint(1, len(evl))))
+        first = [Event(timestamp=e.timestamp + rnd.choice([-7, -3, 2, 5, 11]) * scale * MS, duration=e.duration, data=dict(e.data)) if i in moved else e
+                 for i, e in enumerate(evl)]
+        if rnd.random() < 0.5 and not moved:
+            b.insert(first)
         else:
-            for e in evl:
-                b.insert(e)
+            ids = [b.insert(e).id for e in first]
+            order = list(moved)
+            rnd.shuffle(order)
+            for i in order:
+                b.replace(ids[i], evl[i])
     stored = b.get(-1)
     tr = [{"op": "load", "evs": [{"id": e.id, "ts": tick(e.timestamp), "dur": durt(e.duration), "d": "d%d" % e.data["i"]} for e in stored]}]
     for hs, ws_t, he, we_t in windows_for(rnd, scale, exhaustive, evs_spec):
